@@ -49,11 +49,40 @@ Definition flat_ok (g : gschema) (ty : string) (sels : list node) : bool :=
   nodup_str (map n_alias sels) && forallb (node_ok g (RObj ty)) sels.
 
 
+(** ** the non-federated object.  The world has one plain object type, "Leaf" ([ALeaf val tag]: fields val, tag):
+    it is registered without a key and without _federation by every service whose fields return it, so the
+    gateway can never hop below it. *)
+Definition is_leaf (o : string) : bool := String.eqb o "Leaf".
+
+(** [svc] serves every field of the plain object *)
+Definition serves_leaf (g : gschema) (svc : string) : bool :=
+  forallb (fun e => let '(ty, _, _, owners) := e in negb (is_leaf ty) || existsb (String.eqb svc) owners) (g_fields g).
+
+Definition plain_ok (g : gschema) : bool :=
+  (* the fields of the plain object are scalars and not subject to the ServiceSelector *)
+  forallb (fun e => let '(ty, f, rty, _) := e in
+     negb (is_leaf ty) ||
+     (match rty with RScalar => true | _ => false end &&
+      match selector_of g ty f with None => true | Some _ => false end)) (g_fields g) &&
+  (* whoever serves a field that returns the plain object serves all of its fields (it registered the object) *)
+  forallb (fun e => let '(_, _, rty, owners) := e in
+     match rty with RObj o => negb (is_leaf o) || forallb (serves_leaf g) owners | _ => true end) (g_fields g) &&
+  (* it is not a member of a union *)
+  forallb (fun e => negb (existsb is_leaf (snd e))) (g_unions g).
+
+(** what the transparency theorem needs of [fed_ok] (the rest of it -- who has _federation on what -- is what
+    makes the plans executable on real services: Props/C06.subquery_closed) *)
+Definition fed_ok0 (g : gschema) : bool :=
+  forallb (fun e => let '(_, _, rty, _) := e in match rty with RObj o => negb (String.eqb o "Query") | _ => true end)
+          (g_fields g) &&
+  forallb (fun e => negb (existsb (String.eqb "Query") (snd e))) (g_unions g) &&
+  negb (existsb (String.eqb coordinator) (services_of g)).
+
 (** further decidable conditions on the federation: every service that serves a field of an object other than
     Query can re-fetch it by (at least) its id; id and org are scalars; results of Query carry no __key *)
 Definition fed_ok2 (g : gschema) : bool :=
   forallb (fun e => let '(ty, f, rty, owners) := e in
-     (String.eqb ty "Query" || forallb (fun o => existsb (String.eqb "id") (fkeys_of g ty o)) owners) &&
+     (String.eqb ty "Query" || is_leaf ty || forallb (fun o => existsb (String.eqb "id") (fkeys_of g ty o)) owners) &&
      (negb (String.eqb f "id" || String.eqb f "org") || String.eqb ty "Query" ||
       match rty with RScalar => true | _ => false end)) (g_fields g) &&
   negb (existsb (String.eqb "Query") (g_keyed g)).
@@ -118,13 +147,14 @@ Fixpoint vokb (g : gschema) (rty : rtype) (v : aval) {struct v} : bool :=
   match v with
   | ANull => true
   | AList l => forallb (vokb g rty) l
-  | ARef t _ => match rty with RObj o => String.eqb t o | RScalar => true | RUnion _ => false end
+  | ARef t _ => match rty with RObj o => String.eqb t o && negb (is_leaf o) | RScalar => true | RUnion _ => false end
   | AURef t _ => match rty with
                  | RUnion u => match union_members g u with Some ms => existsb (String.eqb t) ms | None => false end
                  | RScalar => true
                  | RObj _ => false
                  end
-  | AScalar _ | ALeaf _ _ => match rty with RScalar => true | _ => false end
+  | AScalar _ => match rty with RScalar => true | _ => false end
+  | ALeaf _ _ => match rty with RScalar => true | RObj o => is_leaf o | RUnion _ => false end
   end.
 
 Definition calls_ok (g : gschema) (calls : list (string * Z * string * string * aval)) : bool :=
@@ -140,7 +170,7 @@ Definition calls_ok (g : gschema) (calls : list (string * Z * string * string * 
 Definition premises (g : gschema) (calls : list (string * Z * string * string * aval))
            (pick : list string -> option string) (q : list node) : bool :=
   let fuel := 2 * depth_list q + 4 in
-  fed_ok g && fed_ok2 g && sel_ok g && calls_ok g calls && forallb qwf q &&
+  fed_ok0 g && plain_ok g && fed_ok2 g && sel_ok g && calls_ok g calls && forallb qwf q &&
   match flatten fuel false g (RObj "Query") (Some q) with
   | Some (Some flat) => flat_ok g "Query" flat
   | _ => false
